@@ -406,7 +406,7 @@ func (w *World) applyActor(op *Op) {
 			}
 		}
 		fs.Touch(p)
-	case "del-art", "trunc-art", "strip-key", "strip-cert", "strip-csr", "strip-hash", "tamper-hash", "bad-hash", "key-to-csr", "replace-art", "prepend-art":
+	case "del-art", "trunc-art", "strip-key", "strip-cert", "strip-csr", "strip-hash", "tamper-hash", "bad-hash", "key-to-csr", "replace-art", "prepend-art", "append-art":
 		e, ok := w.Ents[op.Ent]
 		if !ok {
 			return
@@ -476,6 +476,8 @@ func (w *World) artifactOp(op *Op, e *EntitySpec) {
 		}
 	case "prepend-art":
 		fs.Put(p, append(w.opBytes(op), data...))
+	case "append-art":
+		fs.Put(p, append(append([]byte(nil), data...), w.opBytes(op)...))
 	case "key-to-csr":
 		w.seedEntropy(op)
 		a := ReadArtifact(data, true)
